@@ -80,3 +80,14 @@ Definition renumber_file (limit : N) (name : str) (contents : str) : option str 
     let out := process_yaml limit id contents in
     if str_eqb contents out then None else Some out
   end.
+
+(* ---------- the lines of the property's quantifier (C13 idempotence) ----------
+   a test_id line / a test_title line: the key is found with only text without the letter t in
+   front of it (blanks, tabs, list dashes); any other line carries neither key *)
+Definition plain_id_line (l : str) : Prop :=
+  exists indent, ~ In 116 indent /\ match_key key_id l = Some (indent ++ key_id).
+Definition plain_title_line (l : str) : Prop :=
+  match_key key_id l = None /\ exists indent, ~ In 116 indent /\ match_key key_title l = Some (indent ++ key_title).
+Definition other_line (l : str) : Prop :=
+  match_key key_id l = None /\ match_key key_title l = None.
+Definition plain_line (l : str) : Prop := plain_id_line l \/ plain_title_line l \/ other_line l.
